@@ -11,7 +11,7 @@ auth flag clear.  Buffer.tla (TLC, see C17) establishes that the bookmark used t
 the placeholder iff it was set while building the current message."""
 import json, random, itertools
 from vlib import trace, scripts, rawdrv, agent as ag, tlc, sesscheck
-from vlib.report import Check
+from vlib.report import Check, confirm_by_replay
 from vlib.env import SEED, ToolError
 from checks import c11
 
@@ -102,6 +102,11 @@ def run(tier):
         a = rec.n
         one_session(rec, cfg, [(sizes[j % len(sizes)], 5, 6) for j in range(4)], None)
         runs.append((a, rec.n, dict(alg="none", priv="none", kt="-", elen=6, ulen=10, idx=idx, plan=[])))
+    # public-API histories: discovery datagrams lost, enter / refresh retried - afterwards the session must still sign as the configured user
+    from checks import c13
+    for a, b, info in c13.lost_discovery_histories(rec, [("md5", "none", "password"), ("sha1", "des", "master"), ("sha1", "aes", "password")], thorough, base_idx=500):
+        info.update(alg=info["auth"], elen=17, ulen=7)
+        runs.append((a, b, info))
     rec.close()
     nmsg = sum(1 for e in rec.events if e["ev"] == "Send" and e.get("wire") and e["sid"] == 1)
     print("  %d sessions, %d v3 messages, %d events" % (len(runs), nmsg, rec.n), flush=True)
@@ -119,6 +124,12 @@ def run(tier):
         a, b, info = runs[ri]
         ev = rec.events[idx]
         sig = dict(alg=info["alg"], priv=info["priv"], kt=info["kt"], ev=ev["ev"], sid=ev.get("sid"), got=ev.get("exc") or "sent")
+        if info.get("api_history"):
+            sig["kind"] = "api-history"
+            chk.violation(sig, "%s session configured with auth=%s priv=%s, calls %s with datagrams %s lost: %s (%s) - a request left that is not signed as the configured user" %
+                          (info["kind"], info["auth"], info["priv"], info["calls"], [k for k, p in enumerate(info["plan"]) if p == "drop"], ev["ev"], ev.get("op")),
+                          dict(info=info), confirm=confirm_by_replay(c13.replay, dict(info=info)))
+            continue
         chk.violation(sig, "auth=%s priv=%s keytype=%s engine_len=%d user_len=%d: %s %s len=%d" % (info["alg"], info["priv"], info["kt"], info["elen"], info["ulen"], ev["ev"], ev.get("exc") or "", len(ev.get("wire", []))),
                       dict(info=info, event_index=idx - a))
     chk.sample(dict(kind="session", info=runs[1][2]))
@@ -129,6 +140,12 @@ def run(tier):
 def replay(path):
     d = json.load(open(path))
     info = d["replay"]["info"]
+    if info.get("api_history"):
+        from checks import c13
+        rc = c13.replay(path)
+        if rc == 1:
+            print("VIOLATION property=C09 replay=%s" % path)
+        return rc
     rec = trace.Recorder("c09-replay")
     cfg = make_cfg(info["alg"], info["priv"], info["kt"], info["elen"], info["ulen"], info["idx"]) if info["alg"] != "none" else rawdrv.Cfg("v3", user="plainuser", engine=b"\x80\x00\x00\x01\x00\x09")
     other = rawdrv.RawSession(rec, scripts.std_cfgs()["v2c"], sid=2)
